@@ -297,6 +297,51 @@ Theorem C02_ssh1_encrypted_refuted :
 Proof. exact N2_witness. Qed.
 Print Assumptions C02_ssh1_encrypted_refuted.
 
+(* ---------- SSH1: every cipher type ---------- *)
+
+(* whatever the cipher type octet (1 IDEA, 2 DES, 3 3DES, 4 TSS, 5 RC4, 6 Blowfish, any unassigned number),
+   whatever octets follow the public half and whatever 3DES makes of them: the key is described as an
+   encrypted SSH v1 key with its comment as stored, algorithm RSA and the bit length of its modulus *)
+Theorem C02_ssh1_any_cipher : forall dec cipher n e comment tail,
+  cipher <> 0 -> bitlen n < 65536 -> bitlen e < 65536 -> N.of_nat (length comment) < 4294967296 ->
+  ssh1_private_key all_fixed dec (ssh1_public_part cipher n e comment ++ tail)
+  = Ok (Info (bs "SSH v1 key (encrypted)")
+          (match comment with [] => [] | _ :: _ => [(bs "Comment", comment)] end ++
+           [(bs "Algorithm", bs "RSA"); (bs "Size", dec_of_N (bitlen n) ++ bs " bits")]) []).
+Proof. exact ssh1_encrypted_described. Qed.
+Print Assumptions C02_ssh1_any_cipher.
+
+(* S1/S2: before the repair an IDEA key whose ciphertext starts with a repeated octet pair was not
+   described, and a ciphertext that reads as integers (or 3DES under the empty passphrase) was labelled
+   as stored in the clear *)
+Theorem C02_ssh1_any_cipher_refuted :
+  is_ok (ssh1_private_key fx_before_s (fun x => x) (ssh1_public_part 1 (2 ^ 258 + 5) 65537 (bs "idea") ++ s1_tail_noise)) = false
+  /\ ssh1_private_key fx_before_s (fun x => x) (ssh1_public_part 1 (2 ^ 258 + 5) 65537 (bs "idea") ++ s1_tail_zeros)
+     = Ok (Info (bs "SSH v1 key") [(bs "Comment", bs "idea"); (bs "Algorithm", bs "RSA"); (bs "Size", bs "259 bits")] [])
+  /\ ssh1_private_key fx_before_s (fun x => x) (ssh1_public_part 3 (2 ^ 258 + 5) 65537 (bs "3des") ++ s1_tail_zeros)
+     = Ok (Info (bs "SSH v1 key") [(bs "Comment", bs "3des"); (bs "Algorithm", bs "RSA"); (bs "Size", bs "259 bits")] [])
+  /\ ssh1_private_key all_fixed (fun x => x) (ssh1_public_part 1 (2 ^ 258 + 5) 65537 (bs "idea") ++ s1_tail_noise)
+     = Ok (Info (bs "SSH v1 key (encrypted)") [(bs "Comment", bs "idea"); (bs "Algorithm", bs "RSA"); (bs "Size", bs "259 bits")] []).
+Proof. exact S1_witness. Qed.
+Print Assumptions C02_ssh1_any_cipher_refuted.
+
+(* ---------- OpenSSH private keys under an AEAD cipher ---------- *)
+
+(* the authentication tag that follows the encrypted block (16 octets for chacha20-poly1305@openssh.com and
+   the two aes-gcm ciphers, none otherwise) is part of a well-formed file: C02_description_exact covers it
+   (fits asks for length (m_tag m) = ossh_auth_len (m_cipher m)); the code before the repair S3 rejected it *)
+Theorem C02_openssh_aead_refuted :
+  is_ok (describe_fx fx_before_s3 lib_yes (fun x => x) COpenSshPrivate (KEd25519 ed_pk) meta_aead) = false
+  /\ describe lib_yes (fun x => x) COpenSshPrivate (KEd25519 ed_pk) meta_aead
+     = Ok (Info (bs "OpenSSH private key (encrypted)")
+             [(bs "Type", bs "ssh-ed25519"); (bs "Algorithm", bs "EdDSA"); (bs "Curve", bs "Ed25519");
+              (bs "Cipher", bs "chacha20-poly1305@openssh.com"); (bs "KDF", bs "bcrypt"); (bs "KDF rounds", bs "7")] [])
+  /\ carries COpenSshPrivate (KEd25519 ed_pk) = true
+  /\ ossh_auth_len (bs "chacha20-poly1305@openssh.com") = 16%nat /\ ossh_auth_len (bs "aes256-gcm@openssh.com") = 16%nat
+  /\ ossh_auth_len (bs "aes128-gcm@openssh.com") = 16%nat /\ ossh_auth_len (bs "aes256-ctr") = 0%nat.
+Proof. exact S3_witness. Qed.
+Print Assumptions C02_openssh_aead_refuted.
+
 (* ---------- the hypotheses are met by ordinary keys ---------- *)
 
 Example C02_nonvacuous :
